@@ -2,6 +2,7 @@
    Go parsers computes, on every spelling of the grammar outside the named
    defect classes, the value the spelling denotes. *)
 From CE Require Import Model.CteLit.
+From CE Require Base.Utf8.
 From Coq Require Import ZifyN ZifyNat ZifyBool.
 Open Scope N_scope.
 
@@ -1647,15 +1648,17 @@ Proof.
       * unfold valid_scalar in Hvs. change (2 ^ 32) with 4294967296. lia.
     + apply andb_true_iff in Hi as [Hnl Hws].
       cbn [app]. rewrite <- app_assoc. rewrite lex_cont; try assumption.
-      * rewrite app_nil_r. apply IH; try assumption; lia.
+      * cbn [app]. apply IH; try assumption; lia.
       * apply render_head_not_ws. destruct t as [|j t']; [exact I|]. apply negb_true_iff. exact Hnext.
     + destruct sent as [|s [|s2 sr]]; try discriminate.
       destruct ct as [|c0 ct]; [discriminate|]. cbn [simple_verbatim] in Hsi.
       apply andb_true_iff in Hi as [Hi Hfree]. apply andb_true_iff in Hi as [Hi Hsep].
       apply andb_true_iff in Hi as [_ Hcs]. cbn [forallb] in Hcs. rewrite andb_true_r in Hcs.
       cbn [app]. rewrite <- !app_assoc. cbn [app].
+      replace (c0 :: (ct ++ [s]) ++ render_body t) with ((c0 :: ct) ++ s :: render_body t)
+        by (cbn [app]; rewrite <- app_assoc; reflexivity).
       rewrite lex_verb; try assumption; try lia.
-      * apply IH; try assumption; lia.
+      * rewrite app_assoc. apply IH; try assumption; lia.
       * apply sentinel_free_single. exact Hfree.
 Qed.
 
@@ -1671,3 +1674,319 @@ Proof.
     assert (1 <= length (render_item i))%nat by (destruct i; cbn [render_item length]; lia). lia. }
   lia.
 Qed.
+
+(* ------------------------------------------------------------------ *)
+(* the binary64 / big float chosen for a hex spelling denotes its value  *)
+(* ------------------------------------------------------------------ *)
+
+Lemma pos_odd_part_spec p :
+  let '(m, k) := pos_odd_part p in Npos p = m * 2 ^ k /\ m <> 0.
+Proof.
+  induction p as [p IH|p IH|]; cbn [pos_odd_part].
+  - split; [rewrite N.pow_0_r; lia | discriminate].
+  - destruct (pos_odd_part p) as [m k]. destruct IH as [E Hm]. split; [|exact Hm].
+    rewrite N.pow_add_r. change (2 ^ 1) with 2. change (N.pos p~0) with (2 * N.pos p). rewrite E. lia.
+  - split; [rewrite N.pow_0_r; lia | discriminate].
+Qed.
+
+Lemma odd_part_spec m :
+  m <> 0 -> let '(m', k) := odd_part m in m = m' * 2 ^ k /\ m' <> 0.
+Proof. destruct m as [|p]; [congruence|]. intros _. apply pos_odd_part_spec. Qed.
+
+Lemma pow_split a b c : a = b + c -> 2 ^ a = 2 ^ b * 2 ^ c.
+Proof. intros ->. apply N.pow_add_r. Qed.
+
+Lemma same_value_pow m a e b f :
+  (Z.of_N a + e = Z.of_N b + f)%Z -> same_value (m * 2 ^ a) e (m * 2 ^ b) f.
+Proof.
+  intro H. unfold same_value. destruct (Z.le_ge_cases e f) as [L|L].
+  - left. split; [exact L|]. rewrite <- N.mul_assoc, <- N.pow_add_r. f_equal. f_equal. lia.
+  - right. split; [lia|]. rewrite <- N.mul_assoc, <- N.pow_add_r. f_equal. f_equal. lia.
+Qed.
+
+Lemma log2_bounds m : m <> 0 -> 2 ^ N.log2 m <= m < 2 ^ (N.log2 m + 1).
+Proof. intro H. rewrite N.add_1_r. apply N.log2_spec. lia. Qed.
+
+Theorem f64_exact_sound m e b :
+  f64_exact m e = Some b ->
+  b < 2 ^ 63 /\ let '(M, E) := f64_parts b in same_value m e M E.
+Proof.
+  unfold f64_exact. destruct (m =? 0) eqn:E0.
+  { intro H. injection H as <-. assert (m = 0) by lia. subst m. split; [reflexivity|].
+    unfold f64_parts. cbn. unfold same_value. destruct (Z.le_ge_cases e (-1074)) as [L|L]; [left|right]; (split; [lia|reflexivity]). }
+  assert (Hm : m <> 0) by lia.
+  pose proof (odd_part_spec m Hm) as HO. destruct (odd_part m) as [m' k]. destruct HO as [Em Hm'].
+  set (e' := (e + Z.of_N k)%Z). set (bl := N.log2 m' + 1). set (top := (e' + Z.of_N bl - 1)%Z).
+  destruct ((bl <=? 53) && (-1074 <=? e')%Z && (top <=? 1023)%Z) eqn:EC; [|discriminate].
+  pose proof (log2_bounds m' Hm') as [Hlo Hhi]. fold bl in Hhi.
+  assert (Hbl : 1 <= bl <= 53) by (unfold bl in *; lia).
+  set (P := 2 ^ 52) in *.
+  assert (HP : P = 4503599627370496) by reflexivity.
+  destruct (-1022 <=? top)%Z eqn:ET; intro H; injection H as <-.
+  - (* normal *)
+    set (F := m' * 2 ^ (53 - bl)).
+    assert (HF : P <= F < 2 * P).
+    { unfold F, P. split.
+      - replace 52 with ((bl - 1) + (53 - bl)) by lia. rewrite N.pow_add_r.
+        apply N.mul_le_mono_r. replace (bl - 1) with (N.log2 m') by (unfold bl; lia). exact Hlo.
+      - change (2 * 2 ^ 52) with (2 ^ 53). replace 53 with (bl + (53 - bl)) at 2 by lia. rewrite N.pow_add_r.
+        apply N.mul_lt_mono_pos_r; [|exact Hhi]. apply N.neq_0_lt_0, N.pow_nonzero. discriminate. }
+    set (T := Z.to_N (top + 1023)).
+    assert (HT : 1 <= T <= 2046) by (unfold T; lia).
+    assert (Eb : T * P + F - P = T * P + (F - P)) by lia. rewrite Eb.
+    split; [change (2 ^ 63) with 9223372036854775808; nia|].
+    unfold f64_parts. fold P.
+    assert (Hd : (T * P + (F - P)) / P = T).
+    { symmetry. apply (N.div_unique _ _ _ (F - P)); lia. }
+    assert (Hmod : (T * P + (F - P)) mod P = F - P).
+    { symmetry. apply (N.mod_unique _ _ T); lia. }
+    rewrite Hd, Hmod. rewrite N.mod_small by lia. replace (T =? 0) with false by lia.
+    replace (P + (F - P)) with F by lia.
+    rewrite Em. unfold F. apply same_value_pow. unfold T, top, e'. lia.
+  - (* subnormal *)
+    set (S := Z.to_N (e' + 1074)).
+    assert (Hb : m' * 2 ^ S < P).
+    { unfold P. apply N.lt_le_trans with (2 ^ bl * 2 ^ S).
+      - apply N.mul_lt_mono_pos_r; [|exact Hhi]. apply N.neq_0_lt_0, N.pow_nonzero. discriminate.
+      - rewrite <- N.pow_add_r. apply N.pow_le_mono_r; [discriminate|]. unfold S, top in *. lia. }
+    split; [change (2 ^ 63) with 9223372036854775808; lia|].
+    unfold f64_parts. fold P. rewrite N.div_small by exact Hb. rewrite N.mod_0_l by discriminate.
+    change (0 =? 0) with true. cbv iota. rewrite N.mod_small by exact Hb.
+    rewrite Em. apply same_value_pow. unfold S, e'. lia.
+Qed.
+
+Lemma odd_part_same_value m e :
+  m <> 0 -> let '(m', k) := odd_part m in same_value m e m' (e + Z.of_N k).
+Proof.
+  intro Hm. pose proof (odd_part_spec m Hm) as H. destruct (odd_part m) as [m' k]. destruct H as [E _].
+  rewrite E at 1. rewrite <- (N.mul_1_r m') at 2. change 1 with (2 ^ 0). apply same_value_pow. lia.
+Qed.
+
+Theorem hex_float_value (l : float_lit) :
+  float_lit_ok l = true -> f_hex l = true -> f_prefix l <> None ->
+  hex_exp_in_range l ->
+  exists r M E,
+    impl_float (render_float l) = Ok r /\
+    result_bin r = Some (f_neg l, M, E) /\
+    same_value (float_mant l) (float_exp l) M E.
+Proof.
+  intros Hok Hh Hp Hr. rewrite (hex_float_exact l Hok Hh Hp Hr). unfold spec_hex.
+  destruct (f64_exact (float_mant l) (float_exp l)) as [b|] eqn:Eb.
+  - destruct (f64_exact_sound _ _ _ Eb) as [Hlt Hs].
+    destruct (f64_parts b) as [M E] eqn:Ep.
+    exists (RFloat (b + (if f_neg l then 2 ^ 63 else 0))), M, E. split; [reflexivity|]. split; [|exact Hs].
+    unfold result_bin. change (2 ^ 63) with 9223372036854775808 in *.
+    destruct (f_neg l).
+    + replace ((b + 9223372036854775808) mod 9223372036854775808) with b
+        by (apply (N.mod_unique _ _ 1); lia).
+      rewrite Ep. replace (9223372036854775808 <=? b + 9223372036854775808) with true by lia. reflexivity.
+    + rewrite N.add_0_r, N.mod_small by lia. rewrite Ep.
+      replace (9223372036854775808 <=? b) with false by lia. reflexivity.
+  - assert (Hm : float_mant l <> 0).
+    { intro H0. rewrite H0 in Eb. discriminate. }
+    pose proof (odd_part_same_value (float_mant l) (float_exp l) Hm) as Hs.
+    destruct (odd_part (float_mant l)) as [m' k].
+    exists (RBigFloat (f_neg l) m' (float_exp l + Z.of_N k) (4 * float_ndigits l)), m', (float_exp l + Z.of_N k)%Z.
+    split; [reflexivity|]. split; [reflexivity | exact Hs].
+Qed.
+
+(* ------------------------------------------------------------------ *)
+(* the bytes written for a code point are its UTF-8 encoding            *)
+(* ------------------------------------------------------------------ *)
+
+Ltac Zify.zify_post_hook ::= Z.to_euclidean_division_equations.
+
+Lemma utf8_enc_decode v rest :
+  valid_scalar v = true ->
+  CE.Base.Utf8.decode_rune (utf8_enc v ++ rest) = Some (v, length (utf8_enc v)).
+Proof.
+  unfold valid_scalar, utf8_enc, CE.Base.Utf8.decode_rune. intro Hv.
+  destruct (v <? 128) eqn:E1.
+  { cbn [app length]. rewrite E1. reflexivity. }
+  destruct (v <? 2048) eqn:E2.
+  { cbn [app length].
+    replace (192 + v / 64 <? 128) with false by lia.
+    replace (192 + v / 64 <? 194) with false by lia.
+    replace (192 + v / 64 <? 224) with true by lia.
+    unfold CE.Base.Utf8.is_cont.
+    replace ((128 <=? 128 + v mod 64) && (128 + v mod 64 <=? 191)) with true by lia.
+    f_equal. f_equal. lia. }
+  replace (((55296 <=? v) && (v <=? 57343)) || (1114111 <? v)) with false by lia.
+  destruct (v <? 65536) eqn:E3.
+  { cbn [app length].
+    replace (224 + v / 4096 <? 128) with false by lia.
+    replace (224 + v / 4096 <? 194) with false by lia.
+    replace (224 + v / 4096 <? 224) with false by lia.
+    replace (224 + v / 4096 <? 240) with true by lia.
+    unfold CE.Base.Utf8.is_cont.
+    match goal with |- (if ?c then _ else _) = _ => replace c with true end.
+    - f_equal. f_equal. lia.
+    - destruct (224 + v / 4096 =? 224) eqn:A; destruct (224 + v / 4096 =? 237) eqn:B; lia. }
+  cbn [app length].
+  replace (240 + v / 262144 <? 128) with false by lia.
+  replace (240 + v / 262144 <? 194) with false by lia.
+  replace (240 + v / 262144 <? 224) with false by lia.
+  replace (240 + v / 262144 <? 240) with false by lia.
+  replace (240 + v / 262144 <? 245) with true by lia.
+  unfold CE.Base.Utf8.is_cont.
+  match goal with |- (if ?c then _ else _) = _ => replace c with true end.
+  - f_equal. f_equal. lia.
+  - destruct (240 + v / 262144 =? 240) eqn:A; destruct (240 + v / 262144 =? 244) eqn:B; lia.
+Qed.
+
+Ltac Zify.zify_post_hook ::= idtac.
+
+(* ------------------------------------------------------------------ *)
+(* The unrestricted statements and the witnesses against them           *)
+(* ------------------------------------------------------------------ *)
+
+(* digit sequence without separators, from its characters *)
+Definition ds (s : bytes) : dseq :=
+  match s with
+  | c :: r => {| d_first := c; d_rest := map (fun x => (O, x)) r |}
+  | [] => {| d_first := 48; d_rest := [] |}
+  end.
+Definition dec_int (neg : bool) (s : bytes) : int_lit :=
+  {| i_neg := neg; i_base := B10; i_upper := false; i_digits := ds s |}.
+Definition dec_float (neg : bool) (ip : bytes) (fp : option bytes) (ex : option (option bool * bytes)) : float_lit :=
+  {| f_neg := neg; f_hex := false; f_prefix := None; f_int := ds ip; f_frac := option_map ds fp;
+     f_exp := option_map (fun e => {| e_upper := false; e_sign := fst e; e_digits := ds (snd e) |}) ex |}.
+Definition float_bits (bits : N) : Prop := bits = 16 \/ bits = 32 \/ bits = 64.
+Definition is_decimal (l : float_lit) : Prop := f_hex l = false /\ f_prefix l = None.
+
+Definition full_int : Prop :=
+  forall l, int_lit_ok l = true -> impl_int (render_int l) = Ok (spec_int l).
+Definition full_int_elem : Prop :=
+  forall bits l, elem_bits bits -> int_lit_ok l = true ->
+                 impl_int_elem 0 bits (render_int l) = spec_int_elem bits l.
+Definition full_int_elem_explicit : Prop :=
+  forall bits l, elem_bits bits -> i_base l <> B10 -> int_lit_ok l = true ->
+                 impl_int_elem (ibase_n (i_base l)) bits (render_int_noprefix l) = spec_int_elem bits l.
+Definition full_uint_elem : Prop :=
+  forall bits l, elem_bits bits -> i_neg l = false -> int_lit_ok l = true ->
+                 impl_uint_elem 0 bits (render_int l) = spec_uint_elem bits l.
+Definition full_uint_elem_explicit : Prop :=
+  forall bits l, elem_bits bits -> i_neg l = false -> i_base l <> B10 -> int_lit_ok l = true ->
+                 impl_uint_elem (ibase_n (i_base l)) bits (render_int_noprefix l) = spec_uint_elem bits l.
+(* with the correctly rounding conversion in the place of strconv's *)
+Definition full_float_elem : Prop :=
+  forall b16 bits l, float_bits bits -> float_lit_ok l = true -> ctx_ok b16 l = true ->
+                     impl_float_elem rne b16 bits (render_float l) = spec_float_elem rne bits l.
+Definition full_decimal : Prop :=
+  forall l, float_lit_ok l = true -> is_decimal l ->
+            impl_float (render_float l)
+            = Ok (if float_mant l <=? 2 ^ 63 - 1 then spec_dec_small l else spec_dec_big l).
+Definition full_codepoint : Prop :=
+  forall hx, hx <> [] -> forallb is_hex hx = true ->
+             impl_codepoint hx = if valid_scalar (hex_val hx) then Ok (utf8_enc (hex_val hx)) else Err.
+Definition full_string : Prop :=
+  forall items, items_ok items = true -> impl_string (render_body items) = Ok (body_value items).
+
+Lemma full_int_refuted : exists l, int_lit_ok l = true /\ impl_int (render_int l) <> Ok (spec_int l).
+Proof. exists (dec_int false [48; 49; 48]). split; [reflexivity|]. vm_compute. discriminate. Qed.
+Lemma full_int_refuted_rejects : exists l, int_lit_ok l = true /\ impl_int (render_int l) = Err.
+Proof. exists (dec_int false [48; 56]). split; reflexivity. Qed.
+
+Lemma full_int_elem_refuted_leading_zero :
+  exists l, int_lit_ok l = true /\ impl_int_elem 0 8 (render_int l) <> spec_int_elem 8 l.
+Proof. exists (dec_int false [48; 49; 48]). split; [reflexivity|]. vm_compute. discriminate. Qed.
+Lemma full_int_elem_refuted_separators :
+  exists l, int_lit_ok l = true /\ leading_zero_dec l = false /\ impl_int_elem 0 8 (render_int l) <> spec_int_elem 8 l.
+Proof.
+  exists {| i_neg := false; i_base := B10; i_upper := false; i_digits := {| d_first := 49; d_rest := [(2%nat, 48)] |} |}.
+  split; [reflexivity|]. split; [reflexivity|]. vm_compute. discriminate.
+Qed.
+Lemma full_int_elem_explicit_refuted :
+  exists l, i_base l <> B10 /\ int_lit_ok l = true /\
+            impl_int_elem (ibase_n (i_base l)) 16 (render_int_noprefix l) <> spec_int_elem 16 l.
+Proof.
+  exists {| i_neg := false; i_base := B16; i_upper := false; i_digits := {| d_first := 102; d_rest := [(1%nat, 102)] |} |}.
+  split; [discriminate|]. split; [reflexivity|]. vm_compute. discriminate.
+Qed.
+Lemma full_uint_elem_refuted :
+  exists l, i_neg l = false /\ int_lit_ok l = true /\ impl_uint_elem 0 8 (render_int l) <> spec_uint_elem 8 l.
+Proof. exists (dec_int false [48; 56]). split; [reflexivity|]. split; [reflexivity|]. vm_compute. discriminate. Qed.
+Lemma full_uint_elem_explicit_refuted :
+  exists l, i_neg l = false /\ i_base l <> B10 /\ int_lit_ok l = true /\
+            impl_uint_elem (ibase_n (i_base l)) 8 (render_int_noprefix l) <> spec_uint_elem 8 l.
+Proof.
+  exists {| i_neg := false; i_base := B16; i_upper := false; i_digits := {| d_first := 102; d_rest := [(1%nat, 102)] |} |}.
+  split; [reflexivity|]. split; [discriminate|]. split; [reflexivity|]. vm_compute. discriminate.
+Qed.
+
+(* @f16[1.015]: truncated to 0x3f81, the nearest bfloat16 is 0x3f82 *)
+Lemma full_float_elem_refuted_f16_truncation :
+  exists l, float_lit_ok l = true /\ ctx_ok false l = true /\
+            impl_float_elem rne false 16 (render_float l) <> spec_float_elem rne 16 l.
+Proof.
+  exists (dec_float false [49] (Some [48; 49; 53]) None).
+  split; [reflexivity|]. split; [reflexivity|]. vm_compute. discriminate.
+Qed.
+(* @f16[1e-45]: a non-zero value accepted as zero *)
+Lemma full_float_elem_refuted_f16_zero :
+  exists l, float_lit_ok l = true /\ ctx_ok false l = true /\ float_mant l <> 0 /\
+            impl_float_elem rne false 16 (render_float l) = Ok [0; 0].
+Proof.
+  exists (dec_float false [49] None (Some (Some true, [52; 53]))).
+  split; [reflexivity|]. split; [reflexivity|]. split; [vm_compute; discriminate | reflexivity].
+Qed.
+(* @f64[1e-1609298120]: a non-zero value accepted as zero *)
+Lemma full_float_elem_refuted_tiny :
+  exists l, float_lit_ok l = true /\ ctx_ok false l = true /\ float_mant l <> 0 /\
+            impl_float_elem rne false 64 (render_float l) = Ok [0; 0; 0; 0; 0; 0; 0; 0] /\
+            spec_float_elem rne 64 l = Err.
+Proof.
+  exists (dec_float false [49] None (Some (Some true, [49; 54; 48; 57; 50; 57; 56; 49; 50; 48]))).
+  split; [reflexivity|]. split; [reflexivity|]. split; [vm_compute; discriminate|]. split; vm_compute; reflexivity.
+Qed.
+
+(* 1844674407370955162.0 decodes to 0.4 *)
+Lemma full_decimal_refuted_coefficient :
+  exists l, float_lit_ok l = true /\ is_decimal l /\
+            impl_float (render_float l) = Ok (RDec 4 (-1)) /\ float_mant l = 18446744073709551620.
+Proof.
+  exists (dec_float false [49;56;52;52;54;55;52;52;48;55;51;55;48;57;53;53;49;54;50] (Some [48]) None).
+  split; [reflexivity|]. split; [split; reflexivity|]. split; vm_compute; reflexivity.
+Qed.
+(* 1.55e-2147483647 decodes to 155e+2147483647 *)
+Lemma full_decimal_refuted_exponent :
+  exists l, float_lit_ok l = true /\ is_decimal l /\
+            impl_float (render_float l) = Ok (RDec 155 2147483647) /\ float_exp l = (-2147483649)%Z.
+Proof.
+  exists (dec_float false [49] (Some [53; 53]) (Some (Some true, [50;49;52;55;52;56;51;54;52;55]))).
+  split; [reflexivity|]. split; [split; reflexivity|]. split; vm_compute; reflexivity.
+Qed.
+
+(* \[d800] is accepted and becomes U+FFFD *)
+Lemma full_codepoint_refuted :
+  exists hx, hx <> [] /\ forallb is_hex hx = true /\ valid_scalar (hex_val hx) = false /\
+             impl_codepoint hx = Ok [239; 191; 189].
+Proof. exists [100; 56; 48; 48]. split; [discriminate|]. repeat split; reflexivity. Qed.
+
+(* "\.ab ab" : empty verbatim sequence with a two-character sentinel yields "b" *)
+Lemma full_string_refuted_empty_verbatim :
+  exists items, items_ok items = true /\ body_value items = [] /\ impl_string (render_body items) = Ok [98].
+Proof. exists [SVerb [97; 98] [32] []]. repeat split; reflexivity. Qed.
+(* "\.a aa" : the character after an empty verbatim sequence is swallowed *)
+Lemma full_string_refuted_swallowed :
+  exists items, items_ok items = true /\ body_value items = [97] /\ impl_string (render_body items) = Ok [].
+Proof. exists [SVerb [97] [32] []; SChar 97]. repeat split; reflexivity. Qed.
+(* "\.ab aab" : contents that start like the sentinel *)
+Lemma full_string_refuted_prefix :
+  exists items, items_ok items = true /\ body_value items = [97] /\ impl_string (render_body items) = Ok [97; 98].
+Proof. exists [SVerb [97; 98] [32] [97]]. repeat split; reflexivity. Qed.
+(* "\.é aé" : a sentinel outside ASCII never matches *)
+Lemma full_string_refuted_nonascii :
+  exists items, items_ok items = true /\ impl_string (render_body items) = Err.
+Proof. exists [SVerb [233] [32] [97]]. repeat split; reflexivity. Qed.
+(* "x\.a qa\.a a" : a second, empty verbatim sequence is rejected *)
+Lemma full_string_refuted_second :
+  exists items, items_ok items = true /\ impl_string (render_body items) = Err.
+Proof. exists [SChar 120; SVerb [97] [32] [113]; SVerb [97] [32] []]. repeat split; reflexivity. Qed.
+
+Definition full_all : Prop :=
+  full_int /\ full_int_elem /\ full_int_elem_explicit /\ full_uint_elem /\ full_uint_elem_explicit /\
+  full_float_elem /\ full_decimal /\ full_codepoint /\ full_string.
+
+Lemma full_all_refuted : ~ full_all.
+Proof. intros [H _]. destruct full_int_refuted as [l [Hok Hne]]. apply Hne, H, Hok. Qed.
